@@ -793,7 +793,97 @@ func (x *Exec) freshLike(v Value, hint string) Value {
 	return v
 }
 
+// constBoundLoop recognises `for i := c; i < N; i++ { … }` with compile-time constants c, N (N-c <= 32) whose body
+// does not assign i: such a loop is unrolled completely (complete, the bound comes from the program text).
+func (x *Exec) constBoundLoop(s *ast.ForStmt) (types.Object, int64, int64, bool) {
+	as, ok := s.Init.(*ast.AssignStmt)
+	if !ok || as.Tok != token.DEFINE || len(as.Lhs) != 1 || len(as.Rhs) != 1 {
+		return nil, 0, 0, false
+	}
+	id, ok := as.Lhs[0].(*ast.Ident)
+	if !ok {
+		return nil, 0, 0, false
+	}
+	obj := x.info.Defs[id]
+	tv, ok := x.info.Types[as.Rhs[0]]
+	if obj == nil || !ok || tv.Value == nil {
+		return nil, 0, 0, false
+	}
+	lo, ok1 := constBig(tv.Value)
+	be, ok := s.Cond.(*ast.BinaryExpr)
+	if !ok || !ok1 || (be.Op != token.LSS && be.Op != token.LEQ) {
+		return nil, 0, 0, false
+	}
+	ci, ok := unparen(be.X).(*ast.Ident)
+	if !ok || x.info.ObjectOf(ci) != obj {
+		return nil, 0, 0, false
+	}
+	hv, ok := x.info.Types[be.Y]
+	if !ok || hv.Value == nil {
+		return nil, 0, 0, false
+	}
+	hi, ok2 := constBig(hv.Value)
+	inc, ok := s.Post.(*ast.IncDecStmt)
+	if !ok || !ok2 || inc.Tok != token.INC {
+		return nil, 0, 0, false
+	}
+	pi, ok := unparen(inc.X).(*ast.Ident)
+	if !ok || x.info.ObjectOf(pi) != obj {
+		return nil, 0, 0, false
+	}
+	// the body must not assign the counter
+	assigned := false
+	ast.Inspect(s.Body, func(n ast.Node) bool {
+		switch st := n.(type) {
+		case *ast.AssignStmt:
+			for _, l := range st.Lhs {
+				if li, ok := unparen(l).(*ast.Ident); ok && x.info.ObjectOf(li) == obj {
+					assigned = true
+				}
+			}
+		case *ast.IncDecStmt:
+			if li, ok := unparen(st.X).(*ast.Ident); ok && x.info.ObjectOf(li) == obj {
+				assigned = true
+			}
+		case *ast.UnaryExpr:
+			if li, ok := unparen(st.X).(*ast.Ident); ok && st.Op == token.AND && x.info.ObjectOf(li) == obj {
+				assigned = true
+			}
+		}
+		return true
+	})
+	h := hi.Int64()
+	if be.Op == token.LEQ {
+		h++
+	}
+	if assigned || !lo.IsInt64() || !hi.IsInt64() || h-lo.Int64() > 32 || h < lo.Int64() {
+		return nil, 0, 0, false
+	}
+	return obj, lo.Int64(), h, true
+}
+
 func (x *Exec) forStmt(s *ast.ForStmt, st *State, label string) {
+	if x.loopSpec(s) == nil && s.Init != nil && s.Cond != nil && s.Post != nil {
+		if obj, lo, hi, ok := x.constBoundLoop(s); ok {
+			var breaks []*State
+			cur := st.clone()
+			sort := x.scalarSort(obj.Type())
+			for i := lo; i < hi && !cur.dead; i++ {
+				cur.vars[obj] = x.constOfSort(i, sort)
+				lc := &loopCtx{label: label}
+				x.loops = append(x.loops, lc)
+				x.block(s.Body.List, cur)
+				x.loops = x.loops[:len(x.loops)-1]
+				breaks = append(breaks, lc.breaks...)
+				cur = x.merge(append(lc.conts, cur)...)
+			}
+			if !cur.dead {
+				cur.vars[obj] = x.constOfSort(hi, sort)
+			}
+			st.set(x.merge(append(breaks, cur)...))
+			return
+		}
+	}
 	if s.Init != nil {
 		x.stmt(s.Init, st)
 	}
